@@ -187,6 +187,9 @@ def run(prop, seed, budget, ctx):
                 failures.append({"kind": "P", "k_ok": True, "part": "late-order", "cls": f"LO{i}", "class_src": ["@dataclass class with int fields f0..f3, no order at definition"], "history": hist_l,
                                  "expected": perm, "views": got, "why": ["order-registered-after-first-use-not-followed:" + ",".join(sorted(bad))]})
                 break
+    import corners7
+    of_, on_, od_, oh_ = corners7.run_part("C16", seed, budget)
+    failures += of_; late_n += on_; distinct |= od_
     import objmodel
     of_, on_, od_, oh_ = objmodel.run_part("C16", seed, budget)
     failures += of_; late_n += on_; distinct |= od_
